@@ -82,8 +82,8 @@ def runner(prop, fam, tier, seed, replay):
             ev["coverage"]["antecedents_exercised"] = {k: dict(sorted(v.items())) for k, v in sorted(cover.items())}
             ev["coverage"]["antecedent_legend"] = "per implementation: distinct TLC states reached by an end event that L ends a live session, S ... one with an Accounting-Start, A ... one holding an address, " \
                                                   "E hits an already ended session, O happens while another session is live, P is two paths at once; suffix = end path"
-            json.dump(ev, open(evp + ".tmp", "w"), indent=1, sort_keys=True)
-            os.replace(evp + ".tmp", evp)
+            json.dump(ev, open(evp + ".tmp%d" % os.getpid(), "w"), indent=1, sort_keys=True)
+            os.replace(evp + ".tmp%d" % os.getpid(), evp)
         if rc == 0 and not replay:
             missing = ["%s %s" % (impl, t) for impl, tags in REQUIRED.items() for t in tags if cover.get(impl, {}).get(t, 0) == 0]
             if missing:
